@@ -197,7 +197,7 @@ type c18Time struct {
 
 type c18Mut struct {
 	Cat    string // "", "byte", "sig-octet", "swap-sig", "wrong-key-named", "raw-resign", "authority-text", "sign-key-text"
-	Op     int    // byte: 0 flip bit, 1 set byte, 2 insert byte, 3 delete byte; sig-octet: 0 set octet Pos of the decoded signature to Val, 1 rewrite the bit count of the RSA value keeping its octet count, 2 set the packet length octet to Val, 3 spell the packet tag octet in the old header format
+	Op     int    // byte: 0 flip bit, 1 set byte, 2 insert byte, 3 delete byte; sig-octet: 0 set octet Pos of the decoded signature to Val, 1 rewrite the bit count of the RSA value keeping its octet count, 2 set the packet length octet to Val, 3 spell the packet tag octet in the old header format, 4 set the hash algorithm octet to Val
 	Region int    // byte: 0 signed content, 1 signature field, 2 anywhere
 	Pos    int    // byte: offset modulo region length
 	Val    int    // byte: bit number / byte value
@@ -518,6 +518,10 @@ func c18MutateSig(sig []byte, m c18Mut) []byte {
 		fallthrough
 	case 0:
 		out[int(uint64(m.Pos)*2654435761%uint64(len(out)))] = byte(m.Val)
+	case 4:
+		// octet 6: 0x01, tag, length, version, signature type, public key
+		// algorithm, hash algorithm
+		out[6] = byte(m.Val)
 	case 3:
 		// 0xC2 = new-format header, tag 2; 0x88 = old-format header, tag 2
 		// with a one-octet length: the length octet that follows reads the same
@@ -914,9 +918,14 @@ func c18Gen(t *rapid.T) c18Case {
 	case "byte":
 		if rapid.IntRange(0, 7).Draw(t, "sigoctet") == 0 {
 			c.Mut = c18Mut{Cat: "sig-octet",
-				Op:  rapid.SampledFrom([]int{0, 0, 0, 0, 0, 0, 1, 2, 3}).Draw(t, "sop"),
+				Op:  rapid.SampledFrom([]int{0, 0, 0, 0, 0, 1, 2, 3, 4, 4}).Draw(t, "sop"),
 				Pos: rapid.IntRange(0, 4095).Draw(t, "spos"),
 				Val: rapid.IntRange(0, 255).Draw(t, "sval"),
+			}
+			if c.Mut.Op == 4 {
+				// OpenPGP hash ids: 1 MD5, 2 SHA1, 3 RIPEMD160, 8 SHA256,
+				// 9 SHA384, 11 SHA224, others unassigned
+				c.Mut.Val = rapid.SampledFrom([]int{3, 3, 1, 2, 8, 9, 11, 0, 4, 100}).Draw(t, "hashid")
 			}
 			break
 		}
